@@ -198,7 +198,7 @@ class C17(RailsProp):
                 # always included: the classic trouble-makers, one position-shaped reply, and the replies that are
                 # dangerous for this particular call (a generated flow that only waits; literals for value generation)
                 lab = self._base_tasks[p]
-                special = ("shaped-steps-user-only",) if "next_steps" in lab else (("ellipsis", "python-import") if lab == "v2-value" else ())
+                special = ("shaped-steps-user-only", "newlines", "blank-then-prose") if "next_steps" in lab else (("ellipsis", "python-import") if lab == "v2-value" else ())
                 if "bot_message" in lab or lab in ("general", "generate_intent_steps_message", "v2-other", "unknown"):
                     special = special + ("dollar-price", d.choice(["dollar-var-first", "dollar-var-quoted"], "dollar", p))
                 for must in ("empty", "jinja-expr", "shaped-steps-inline-jinja", d.choice(corpus.SHAPED, "shaped", p)) + special:
